@@ -12,6 +12,7 @@ CONSTANTS
   KBig = 10
   NBigMin = 8
   NBigMax = 30
+  Select = "all"
 INIT InitBigX
 NEXT NextBigX
 INVARIANT NoBrokenRule
